@@ -652,8 +652,8 @@ def startsWith (inp : Input) (s e : Nat) (p : List Nat) : Bool :=
 /-- token.rs:460 `line_comment(start)`; `none`: an ordinary comment (the loop continues). -/
 def lineComment (inp : Input) (start : Loc) (l : Loc) : Res (Option STok × Loc) := do
   let (l1, (s, e)) ← takeUntil inp start (fun b => b == 10) l
-  if startsWith inp s e (lit "///") then
-    let skip := if startsWith inp s e (lit "/// ") then 4 else 3
+  if startsWith inp s e [47, 47, 47] /- "///" -/ then
+    let skip := if startsWith inp s e [47, 47, 47, 32] /- "/// " -/ then 4 else 3
     let (cs, ce) ← slice inp (s + skip) e          -- `&comment[skip..]`
     pure (some ⟨start, l1, .doc false cs ce⟩, l1)
   else pure (none, l1)
@@ -667,7 +667,7 @@ def blockLoop (inp : Input) (start : Loc) (l : Loc) : Res (Out ⊕ (Option STok 
     match bump inp (bumpLoc inp l1) with   -- `bumpLoc`: skip the `*` found
     | some (b, l3) =>
       if b == 47 then
-        if startsWith inp s e (lit "/**") && e - s != 3 then
+        if startsWith inp s e [47, 42, 42] /- "/**" -/ && e - s != 3 then
           match slice inp (s + 3) e with          -- `comment[3..]`
           | .panic m => .panic m
           | .hang => .hang
@@ -696,7 +696,7 @@ def blockComment (inp : Input) (start : Loc) (l : Loc) : Res (Out ⊕ (Option ST
 /-- token.rs:625 `shebang_line(start)`. -/
 def shebangLine (inp : Input) (start : Loc) (l : Loc) : Res (Option STok × Loc) := do
   let (l1, (s, e)) ← takeUntil inp start (fun b => b == 10) l
-  if startsWith inp s e (lit "#!") then
+  if startsWith inp s e [35, 33] /- "#!" -/ then
     let (cs, ce) ← slice inp (s + 2) e             -- `line[skip..]`
     pure (some ⟨start, l1, .shebang cs (trimEnd inp cs ce)⟩, l1)
   else pure (none, l1)
